@@ -362,6 +362,66 @@ def check_target_ro(ctx, fns):
                '(opaque values are blanked on a deep copy)')
 
 
+def check_tls_files(ctx, cq):
+    """Each configured TLS file is checked on its own: a missing or
+    unreadable file raises whatever the other file options are set to (a
+    key file without a certificate file included) - the request is not made
+    with a file the operator named and the process cannot use."""
+    import re
+    prog = ctx.prog
+    f = prog.find_method(cq, '__call__')
+    old_hint = getattr(prog, '_self_cls_hint', None)
+    prog._self_cls_hint = cq
+    saved_callees = dict(prog._callees)
+    prog._callees.clear()
+    try:
+        fns = class_functions(prog, f)
+    finally:
+        prog._self_cls_hint = old_hint
+        prog._callees.clear()
+        prog._callees.update(saved_callees)
+    hq = {g.qual for g in fns if g is not f}
+
+    def inline(call, frame):
+        g = prog.callee_of(frame, call)
+        return g if g is not None and g.qual in hq else None
+    t = Table(prog, f, inline=inline if hq else None, max_paths=200000,
+              self_cls=cq)
+    F = ctx.where(f.module, f.node).split(':')[0]
+    FILE = re.compile(r'remote_ssl_\w*file')
+    # per raise site: the conditions *every* path to it has established
+    # (those dominate it; what merely happened earlier on one path does not)
+    sites = {}
+    for p in t.paths:
+        if p.outcome.kind != 'raise' or any(c.kind == 'exc'
+                                            for c in p.conds):
+            continue
+        tests = [(U(t.expand(c.expr)), c.pol) for c in p.conds
+                 if c.kind == 'test']
+        probes = [x for x, _pol in tests if 'os.path.exists(' in x
+                  or 'os.access(' in x]
+        if not probes:
+            continue
+        subj = set(FILE.findall(probes[-1]))
+        if len(subj) != 1:
+            continue
+        key = (p.outcome.line, sorted(subj)[0])
+        cs = set(tests)
+        sites[key] = cs if key not in sites else (sites[key] & cs)
+    n = len(sites)
+    for (line, subj), dom in sorted(sites.items()):
+        others = sorted({m for x, _pol in dom for m in FILE.findall(x)}
+                        - {subj})
+        ctx.ob('C16.TLS-FILES', not others, '%s:%d' % (F, line), f.qual,
+               'pre-check of %s' % subj,
+               'depends on that option alone' if not others else
+               'the pre-check of %s is made only under a condition on %s: '
+               'with that one unset, a missing or unreadable %s is handed '
+               'to the request instead of being refused' % (
+                   subj, ', '.join(others), subj))
+    ctx.floor('C16.TLS-FILES', n, 2, 'TLS file pre-check raises')
+
+
 def check(ctx):
     prog = ctx.prog
     ctx.use(EXT, CHECKS)
@@ -400,6 +460,7 @@ def check(ctx):
            'both classes decide by the same expression' if ok else
            'the http and https checks decide differently: %s vs %s' % (
                sorted(canons['http']), sorted(canons['https'])))
+    check_tls_files(ctx, classes['https'])
     if payload_fn is not None:
         check_payload_builder(ctx, payload_fn)
     check_target_ro(ctx, fns)
